@@ -183,13 +183,12 @@ func (x *Exec) stdlib(s *State, in *ssa.Call, f *ssa.Function, args []Val) Val {
 		x.assumed["sync.Pool: New returns an empty builder (zero strings.Builder); Get returns a New or a Put value"] = true
 		bufs := x.heapSym(s, "ghost:buf", SArray(SInt, SStr))
 		s.assume(Eq(Select(bufs, r, SStr), T{"str.empty", SStr}))
+		// what Get hands out is out of the pool until it is put back
+		inp := x.heapSym(s, "ghost:inpool", SArray(SInt, SBool))
+		x.heapSet(s, "ghost:inpool", Store(inp, r, TFalse))
 		return scalar(mk(SIface, "iref", tag, r))
 	case "(*sync.Pool).Put":
-		// what goes back into the pool must be empty: the next Get hands it out as it is
-		if len(args) == 2 && args[1].K == vScalar && args[1].T.Sort == SIface {
-			bufs := x.heapSym(s, "ghost:buf", SArray(SInt, SStr))
-			x.oblige(s, "call-requires", x.label(in)+"/pooled-builder-empty", Eq(Select(bufs, mk(SInt, "iptr", args[1].T), SStr), T{"str.empty", SStr}), in.Pos(), []string{"C09"})
-		}
+		x.poolPut(s, in, args)
 		return Val{K: vNone}
 	case "(*sync.RWMutex).RLock", "(*sync.RWMutex).RUnlock", "(*sync.RWMutex).Lock", "(*sync.RWMutex).Unlock":
 		x.lockOp(s, in, f.Name(), args[0])
@@ -445,5 +444,19 @@ func init() { _ = fmt.Sprint }
 func (x *Exec) sharedBuilderCheck(s *State, in *ssa.Call, ref T) {
 	if x.fnc != nil && len(s.frames) == 1 && (x.fnc.Conforms == "functionQuery.Func" || x.fnc.Conforms == "transformFunctionQuery.Func") {
 		x.oblige(s, "frame", "shared-builder:"+x.label(in), x.freshTerm(s, ref), in.Pos(), []string{"C04", "C05"})
+	}
+}
+
+// poolPut: (*sync.Pool).Put(b), also when deferred. What goes back into the pool must be empty (the
+// next Get hands it out as it is) and must not be in the pool already (or two callers would be
+// handed the same object).
+func (x *Exec) poolPut(s *State, in ssa.Instruction, args []Val) {
+	if len(args) == 2 && args[1].K == vScalar && args[1].T.Sort == SIface {
+		ref := mk(SInt, "iptr", args[1].T)
+		bufs := x.heapSym(s, "ghost:buf", SArray(SInt, SStr))
+		x.oblige(s, "call-requires", x.label(in)+"/pooled-builder-empty", Eq(Select(bufs, ref, SStr), T{"str.empty", SStr}), in.Pos(), []string{"C09"})
+		inp := x.heapSym(s, "ghost:inpool", SArray(SInt, SBool))
+		x.oblige(s, "call-requires", x.label(in)+"/put-once", Not(Select(inp, ref, SBool)), in.Pos(), []string{"C05", "C09"})
+		x.heapSet(s, "ghost:inpool", Store(inp, ref, TTrue))
 	}
 }
